@@ -217,6 +217,8 @@ pub struct RunSpec {
     pub quit_at: Option<usize>,
     /// preemption points (hook step numbers) of a `Policy::Fixed` run
     pub change_points: Vec<u64>,
+    /// the visitor answers error entries with `WalkState::Skip`
+    pub skip_on_error: bool,
 }
 
 impl RunSpec {
@@ -224,7 +226,7 @@ impl RunSpec {
         json!({
             "tree": self.tree.to_json(), "roots": self.roots, "workers": self.workers,
             "policy": self.policy.name(), "sched_seed": self.sched_seed, "quit_at": self.quit_at,
-            "change_points": self.change_points,
+            "change_points": self.change_points, "skip_on_error": self.skip_on_error,
         })
     }
     pub fn from_json(v: &Value) -> RunSpec {
@@ -249,6 +251,7 @@ impl RunSpec {
                 .as_array()
                 .map(|a| a.iter().filter_map(|x| x.as_u64()).collect())
                 .unwrap_or_default(),
+            skip_on_error: v["skip_on_error"].as_bool().unwrap_or(false),
         }
     }
 }
@@ -301,6 +304,19 @@ pub fn gen_tree(rng: &mut Rng) -> (Tree, Vec<String>) {
             }
         }
     }
+    // dangling links: error entries in the middle of a directory listing
+    if rng.chance(1, 3) {
+        let all_dirs: Vec<String> =
+            t.nodes.iter().filter(|n| n.kind == Kind::Dir).map(|n| n.path.clone()).collect();
+        for i in 0..rng.range(1, 3) {
+            if let Some(d) = all_dirs.get(rng.below(all_dirs.len().max(1))) {
+                let p = format!("{}/{}dangling{}", d, rng.pick(&["", "m", "zz"]), i);
+                if !t.nodes.iter().any(|n| n.path == p) {
+                    t.nodes.push(Node { path: p, kind: Kind::Link("no/such/target".into()) });
+                }
+            }
+        }
+    }
     let roots = if dirs.len() >= 2 && rng.chance(1, 2) {
         dirs.iter().take(rng.range(2, dirs.len().min(4))).cloned().collect()
     } else {
@@ -314,16 +330,40 @@ fn builder(base: &Path, roots: &[String], workers: usize) -> WalkBuilder {
     for r in &roots[1..] {
         b.add(base.join(r));
     }
-    b.standard_filters(false).threads(workers);
+    // links are followed: a dangling link is then an *error* entry, which a
+    // visitor may answer with Skip (documented to have no effect for
+    // anything that is not a directory)
+    b.standard_filters(false).follow_links(true).threads(workers);
     b
 }
 
+/// Error entries are identified by the path they are about (the serial and
+/// the parallel walker word their messages differently).
+fn err_key(base: &Path, e: &ignore::Error) -> String {
+    let msg = e.to_string();
+    let b = base.to_string_lossy();
+    match msg.find(&*b) {
+        Some(i) => {
+            let rest = &msg[i + b.len()..];
+            let end = rest.find(':').unwrap_or(rest.len());
+            format!("<error>{}", rest[..end].trim_start_matches('/'))
+        }
+        None => format!("<error>{}", msg),
+    }
+}
+
 pub fn expected_entries(base: &Path, roots: &[String]) -> BTreeMap<String, usize> {
+    let base_of_err = base;
     let mut m = BTreeMap::new();
     for r in builder(base, roots, 1).build() {
-        if let Ok(d) = r {
-            let p = d.path().strip_prefix(base).unwrap_or(d.path()).to_string_lossy().into_owned();
-            *m.entry(p).or_insert(0) += 1;
+        match r {
+            Ok(d) => {
+                let p = d.path().strip_prefix(base).unwrap_or(d.path()).to_string_lossy().into_owned();
+                *m.entry(p).or_insert(0) += 1;
+            }
+            Err(e) => {
+                *m.entry(err_key(base_of_err, &e)).or_insert(0) += 1;
+            }
         }
     }
     m
@@ -400,6 +440,7 @@ pub fn scheduled_walk(
     verif::set_hook(Some(Arc::new(move |w, p| s2.hook(w, p))));
     let visited: Arc<Mutex<Vec<(usize, String)>>> = Arc::new(Mutex::new(vec![]));
     let quit_at = spec.quit_at;
+    let skip_on_error = spec.skip_on_error;
     let base2: PathBuf = base.to_path_buf();
     let mut next_worker = 0usize;
     builder(base, &spec.roots, n).build_parallel().run(|| {
@@ -419,14 +460,21 @@ pub fn scheduled_walk(
             }
             let mut v = visited.lock().unwrap();
             let idx = v.len();
-            if let Ok(d) = r {
-                let p = d.path().strip_prefix(&base).unwrap_or(d.path()).to_string_lossy().into_owned();
-                v.push((me, p));
-            } else {
-                v.push((me, "<error>".into()));
+            let mut is_err = false;
+            match r {
+                Ok(d) => {
+                    let p = d.path().strip_prefix(&base).unwrap_or(d.path()).to_string_lossy().into_owned();
+                    v.push((me, p));
+                }
+                Err(e) => {
+                    is_err = true;
+                    v.push((me, err_key(&base, &e)));
+                }
             }
             if quit_at == Some(idx) {
                 WalkState::Quit
+            } else if is_err && skip_on_error {
+                WalkState::Skip
             } else {
                 WalkState::Continue
             }
@@ -620,6 +668,7 @@ fn sweep(seed: u64, shard: usize, nshards: usize, thorough: bool, report: &Arc<M
                         sched_seed: 0,
                         quit_at,
                         change_points: vec![],
+                        skip_on_error: pi % 2 == 1,
                     };
                     // the base schedule is run by every shard: its length
                     // bounds the preemption points
@@ -709,6 +758,7 @@ pub fn child(seed: u64, nruns: usize, out_path: &str, thorough: bool, shard: usi
                 sched_seed: mix(&[seed, tree_no, r as u64]),
                 quit_at,
                 change_points: vec![],
+                skip_on_error: rng.bool(),
             };
             exec_spec(&spec, &base, nentries, &expected, &report, &out_path);
             done += 1;
@@ -758,9 +808,12 @@ pub fn stress(seed: u64, nruns: usize, rep: &mut Report) {
                 Box::new(move |r| {
                     let mut v = visited.lock().unwrap();
                     let idx = v.len();
-                    if let Ok(d) = r {
-                        let p = d.path().strip_prefix(&base).unwrap_or(d.path()).to_string_lossy().into_owned();
-                        v.push((0, p));
+                    match r {
+                        Ok(d) => {
+                            let p = d.path().strip_prefix(&base).unwrap_or(d.path()).to_string_lossy().into_owned();
+                            v.push((0, p));
+                        }
+                        Err(e) => v.push((0, err_key(&base, &e))),
                     }
                     if quit_at == Some(idx) { WalkState::Quit } else { WalkState::Continue }
                 })
@@ -773,7 +826,7 @@ pub fn stress(seed: u64, nruns: usize, rep: &mut Report) {
                 verif::set_hook(None);
                 rep.evaluations += 1;
                 rep.count("stress_runs");
-                let spec = RunSpec { tree: tree.clone(), roots: roots.clone(), workers, policy: Policy::Uniform, sched_seed: 0, quit_at, change_points: vec![] };
+                let spec = RunSpec { tree: tree.clone(), roots: roots.clone(), workers, policy: Policy::Uniform, sched_seed: 0, quit_at, change_points: vec![], skip_on_error: false };
                 let out = RunOutcome { visited: visited.lock().unwrap().clone(), steps: 0, decisions_hash: 0, steals: 0, idle_transitions: 0, quit_with_work_queued: 0 };
                 rep.add("stress_visits", out.visited.len() as u64);
                 judge(&spec, &expected, &out, rep);
@@ -822,16 +875,19 @@ pub fn miri_walks(seed: u64) -> Report {
             Box::new(move |r| {
                 let mut v = visited.lock().unwrap();
                 let idx = v.len();
-                if let Ok(d) = r {
-                    let p = d.path().strip_prefix(&base).unwrap_or(d.path()).to_string_lossy().into_owned();
-                    v.push((0, p));
+                match r {
+                    Ok(d) => {
+                        let p = d.path().strip_prefix(&base).unwrap_or(d.path()).to_string_lossy().into_owned();
+                        v.push((0, p));
+                    }
+                    Err(e) => v.push((0, err_key(&base, &e))),
                 }
                 if quit_at == Some(idx) { WalkState::Quit } else { WalkState::Continue }
             })
         });
         rep.evaluations += 1;
         rep.count("miri_walks");
-        let spec = RunSpec { tree: t.clone(), roots: roots.clone(), workers, policy: Policy::Uniform, sched_seed: seed, quit_at, change_points: vec![] };
+        let spec = RunSpec { tree: t.clone(), roots: roots.clone(), workers, policy: Policy::Uniform, sched_seed: seed, quit_at, change_points: vec![], skip_on_error: false };
         let out = RunOutcome { visited: visited.lock().unwrap().clone(), steps: 0, decisions_hash: mix(&[seed, round as u64]), steals: 0, idle_transitions: 0, quit_with_work_queued: 0 };
         rep.nontrivial(out.decisions_hash);
         judge(&spec, &expected, &out, &mut rep);
